@@ -186,7 +186,7 @@ def shared_corpus(prefix):
 
 def gen_hash(weight):
     def gen(rng, tier, mult):
-        n = int((40 if tier == "quick" else 700) * mult * weight)
+        n = int((250 if tier == "quick" else 6000) * mult * weight)
         cases = shared_corpus("shared-hash-")
         # sweep: every alignment 0..15 x every single-call length 0..24 (both sides of the 8-byte threshold)
         for a in range(16):
@@ -237,7 +237,7 @@ CTR_LENS = [0, 1, 15, 16, 17, 31, 32, 33, 47, 48, 49, 255, 256, 257]
 
 def gen_aes(weight):
     def gen(rng, tier, mult):
-        n = int((60 if tier == "quick" else 900) * mult * weight)
+        n = int((300 if tier == "quick" else 6000) * mult * weight)
         cases = shared_corpus("shared-aes-")
         for ci in range(n):
             r = rng.fork("a%d" % ci)
@@ -253,7 +253,7 @@ def gen_aes(weight):
                     ops.append(op_ctr(r, total))
             cases.append(ops)
         # long streams: >= 4096 blocks (the 2^8 and 2^16... carries of the block counter), few of them
-        for li in range((1 if tier == "quick" else 6) if weight >= 1 else 0):
+        for li in range((2 if tier == "quick" else 24) if weight >= 1 else 0):
             r = rng.fork("long%d" % li)
             cases.append([head(r), op_ctr(r, 65536 + r.choice([0, 1, 15, 16, 17, 4096 + 5]))])
         return cases
